@@ -480,7 +480,48 @@ def find_fn(toks, impl, name):
     raise Unsupported("fn %s not found" % name)
 
 
-def parse_fn(toks, at):
+def find_fn_by_sig(toks, impl, sig):
+    """a private function that was renamed: the only function of the impl block with this signature"""
+    hits = []
+    for m in range(len(toks) - 1):
+        if toks[m] == ("id", "fn") and toks[m + 1][0] == "id":
+            try:
+                fn = parse_fn(toks, m, header_only=True)
+            except (Unsupported, IndexError):
+                continue
+            got = ([p[1].replace(" ", "") for p in fn["params"]], fn["ret"].replace(" ", ""), fn["selfk"])
+            if got == (sig[0], sig[1], sig[2] if len(sig) > 2 else None):
+                hits.append(m)
+    # restrict to the impl block
+    if impl:
+        inside = []
+        for h in hits:
+            depth, k, owner = 0, h, None
+            while k >= 0:
+                if toks[k] == ("op", "}"):
+                    depth += 1
+                elif toks[k] == ("op", "{"):
+                    if depth == 0:
+                        j = k - 1
+                        hdr = []
+                        while j >= 0 and toks[j] != ("id", "impl") and toks[j][1] not in ("}", ";"):
+                            hdr.append(toks[j][1])
+                            j -= 1
+                        if j >= 0 and toks[j] == ("id", "impl"):
+                            owner = hdr
+                            break
+                    else:
+                        depth -= 1
+                k -= 1
+            if owner and impl in owner:
+                inside.append(h)
+        hits = inside
+    if len(hits) != 1:
+        raise Unsupported("no unique function with the signature %s in impl %s" % (sig, impl))
+    return hits[0]
+
+
+def parse_fn(toks, at, header_only=False):
     p = Parser(toks)
     p.i = at
     p.expect("fn")
@@ -511,6 +552,8 @@ def parse_fn(toks, at):
     ret = "()"
     if p.eat("->"):
         ret = p.type_()
+    if header_only:
+        return dict(name=name, params=params, selfk=selfk, ret=ret, body=None)
     body = p.block()
     return dict(name=name, params=params, selfk=selfk, ret=ret, body=body)
 
@@ -623,7 +666,14 @@ class Translator:
     def add(self, cfg):
         src = open(os.path.join(REPO, cfg["file"])).read()
         toks = tokenize(src)
-        fn = parse_fn(toks, find_fn(toks, cfg.get("impl"), cfg["fn"]))
+        try:
+            at = find_fn(toks, cfg.get("impl"), cfg["fn"])
+        except Unsupported:
+            if not cfg.get("sig"):
+                raise
+            at = find_fn_by_sig(toks, cfg.get("impl"), cfg["sig"])
+        fn = parse_fn(toks, at)
+        fn["name"] = cfg["fn"]      # a private helper found by its signature keeps the configured name
         fn["cfg"] = cfg
         fn["lean"] = cfg.get("lean", cfg["fn"])
         self.fns[cfg["fn"]] = fn
@@ -1584,7 +1634,8 @@ GROUPS = {
              dict(file="src/compress.rs", impl="Compress", fn="raw_name_len_after_decompression", fuel=NAME_FUEL),
              dict(file="src/compress.rs", impl="Compress", fn="copy_uncompressed_name", fuel=NAME_FUEL,
                   ret_lean="(Nat × Nat) × Bytes"),
-             dict(file="src/compress.rs", impl="SuffixDict", fn="raw_names_eq_ignore_case")],
+             dict(file="src/compress.rs", impl="SuffixDict", fn="raw_names_eq_ignore_case",
+                  sig=(["&[u8]", "&[u8]"], "bool"))],
     ),
     "Sector": dict(
         self_fields={"packet": ("packet", "bytes"), "offset": ("offset", "usize"),
